@@ -49,6 +49,10 @@ def run(ctx):
     ctx.floor("A5", 6)
     ctx.floor("A7", 12)
     ctx.floor("A6", 3)
+    # values handed to the databases arrive under the parameter they are meant for
+    from ..engines import jsonpairs as J
+    J.j7_positional_settings(ctx)
+    ctx.floor("J7", 1)
     # the shifts recorded with a rule are position by position those of its own children (engine S, quick parameters)
     from ..engines import sizecheck as SC
     SC.s4_forest_keys(ctx)
